@@ -28,8 +28,8 @@ theorem firstRead_ok {a : Bool} {n : Nat} {segs : List Bytes} {b rest : Bytes}
         simp [← List.append_assoc, List.take_append_drop]
       · cases h
 
-theorem firstRead_fail {a : Bool} {n : Nat} {segs : List Bytes} {e : Err} {got : Bytes}
-    (h : firstRead a n segs = .fail e got) : ∃ rest, received segs = got ++ rest := by
+theorem firstRead_fail {a : Bool} {n : Nat} {segs : List Bytes} {e : Err} {got : Bytes} {rs : List Bytes}
+    (h : firstRead a n segs = .fail e got rs) : ∃ rest, received segs = got ++ rest := by
   unfold firstRead at h
   simp only at h
   split at h
